@@ -3,6 +3,8 @@ package main
 
 import (
 	"fmt"
+	"sort"
+	"sync"
 	"time"
 
 	"verifh/lib"
@@ -20,7 +22,8 @@ func main() {
 		Rule: "generated programs dominated by protected calls (pcall/xpcall, nested) whose bodies raise error() with values of every type and level 0/1/2, runtime faults (index/call/arith/compare/concat), assert, " +
 			"also from nested calls, metamethods and coroutines; after each the program keeps using the caller's locals, upvalues and tables; traces compared with the reference evaluator; " +
 			"non-trivial = at least 5 emitted rows or an error outcome; distinct by Gallina term",
-		Modes:     []luaprop.Mode{{Name: "errors", Features: f, Weight: 1}},
+		Modes: []luaprop.Mode{{Name: "errors", Features: f, Weight: 3},
+			{Name: "errors-autostack", Features: f, Weight: 1, Run: &luagen.RunOptions{MinimizeStack: true, CallStackSize: 64}}},
 		NQuick:    120,
 		NThorough: 6000,
 		Corpus:    corpus,
@@ -38,6 +41,7 @@ func main() {
 }
 
 var corpus = []string{
+	`local function dive(n) if n == 0 then local ok, e = pcall(error, {code = 1}); return ok, e.code end; local a, b = dive(n - 1); return a, b + 1 end; for d = 0, 20 do emit(d, dive(d)) end`,
 	`local t = {[""] = function() error("x") end}; emit(pcall(function() t[""]() end))`,
 	`local co = coroutine.create(math.max); emit(coroutine.resume(co, 1, 5, 3)); emit(coroutine.status(co), coroutine.running())`,
 	`emit(pcall(error)); emit(pcall(error, nil)); emit(pcall(error, "s")); emit(pcall(error, "s", 0)); emit(pcall(error, {1})); emit(pcall(error, true)); emit(pcall(error, 12, 0))`,
@@ -61,7 +65,7 @@ var corpus = []string{
 // fault-free trace, and the same state then has an empty stack and runs a fixed epilogue.
 func faultEnumeration(w *lib.Writer, tier string, seed uint64) {
 	cfg := cfgForExtra
-	nprog, capEmit, capInstr := 24, 8, 60
+	nprog, capEmit, capInstr := 16, 8, 50
 	if tier == "thorough" {
 		nprog, capEmit, capInstr = 400, 40, 600
 	}
@@ -89,23 +93,45 @@ func faultEnumeration(w *lib.Writer, tier string, seed uint64) {
 				w.GoFail(id, out.GoFail)
 			}
 		}
-		// (b) instruction-boundary faults
+		// (b) instruction-boundary faults (child processes, run in parallel)
 		polls := base.Polls
 		step := 1
 		if polls > capInstr {
 			step = polls / capInstr
 		}
+		type res struct {
+			k    int
+			out  *luagen.Outcome
+			what string
+		}
+		var mu sync.Mutex
+		var wg sync.WaitGroup
+		var results []res
+		sem := make(chan struct{}, 12)
 		for k := 1; k <= polls; k += step {
-			out := luagen.RunIsolated(src, 20*time.Second, &luagen.RunOptions{InstrFault: k, Epilogue: true})
+			wg.Add(1)
+			sem <- struct{}{}
+			go func(k int) {
+				defer wg.Done()
+				defer func() { <-sem }()
+				out := luagen.RunIsolated(src, 20*time.Second, &luagen.RunOptions{InstrFault: k, Epilogue: true})
+				what := out.GoFail
+				if what == "" {
+					what = instrPredicates(base, out)
+				}
+				mu.Lock()
+				results = append(results, res{k, out, what})
+				mu.Unlock()
+			}(k)
+		}
+		wg.Wait()
+		sort.Slice(results, func(a, b int) bool { return results[a].k < results[b].k })
+		for _, r := range results {
 			w.Meta.GoOnlyChecked++
-			what := out.GoFail
-			if what == "" {
-				what = instrPredicates(base, out)
-			}
-			if what != "" {
-				id := w.Add(lib.Case{Input: map[string]any{"src": src, "seed": seed, "idx": idx, "mode": mode, "instr_fault": k},
-					Observed: out.Summary(), Class: "instr-fault", Nontrivial: true, Coq: "CProg [] (Outcome [] (OOk []))"})
-				w.GoFail(id, fmt.Sprintf("instruction fault at poll %d/%d: %s", k, polls, what))
+			if r.what != "" {
+				id := w.Add(lib.Case{Input: map[string]any{"src": src, "seed": seed, "idx": idx, "mode": mode, "instr_fault": r.k},
+					Observed: r.out.Summary(), Class: "instr-fault", Nontrivial: true, Coq: "CProg [] (Outcome [] (OOk []))"})
+				w.GoFail(id, fmt.Sprintf("instruction fault at poll %d/%d: %s", r.k, polls, r.what))
 			}
 		}
 	}
